@@ -22,7 +22,7 @@ pub fn spec() -> Spec {
         case_cap_s: |t| t.pick(300, 3600),
         rule: "one case per connected complete 2-dimensional symbol: every labeled symbol of size <= 4 (all renumberings) and every class representative of size 5 (thorough: up to 7, with systematic renumberings) x every branching vector over {1,2,3,4,5,11}. Clauses: curvature = sum over chambers of 1/m01 + 1/m12 - 1/2 (definition); curvature = 2 * chi(parse(orbifold_symbol)); symbol (normalised over cone order, component order, rotation and reversal of corner lists) and curvature equal to those of the class representative and of the dual; curvature of harness-built 2-sheeted covers, of oriented_cover and of covers(s, <= 3) = sheets * curvature; is_euclidean/is_hyperbolic/is_spherical against the sign of K and the tear-drop/spindle test on the orbifold computed from the definitions by the reference model. Non-trivial = size >= 2 or some branching > 1.",
         assumptions: &["covers(s, k) and oriented_cover only supply covers; each is verified to be a covering by the reference model and its sheet number is taken from that verification"],
-        bounds: |t| json!({"labeled_max_size": 4, "class_representatives_size": t.pick(7, 8), "V": [1,2,3,4,5,11], "large_family": "2D Coxeter coset symbols of 6-120 [384] chambers and every 7th [2nd] generator representative of 9-12 [14] chambers (unbranched, one branched orbit), as given and in 2 renumberings", "degree_boundary_family": "sizes <= 3 [4], values 1-13, 19-21, 99-101, 999, 1000 on <= 2 orbits (1 orbit above size 2)", "size_5_plus_V": t.pick(json!([1,2,3,4,5,11]), json!([1,2,3,5,11])),
+        bounds: |t| json!({"labeled_max_size": 4, "class_representatives_size": t.pick(7, 8), "V": [1,2,3,4,5,11], "coprime_polygon_family": "mirror polygons with 4-11 [13] corners of pairwise coprime orders from {41, ..., 97}, 14 rotations of the list each; as given, reversed, dual", "large_family": "2D Coxeter coset symbols of 6-120 [384] chambers and every 7th [2nd] generator representative of 9-12 [14] chambers (unbranched, one branched orbit), as given and in 2 renumberings", "degree_boundary_family": "sizes <= 3 [4], values 1-13, 19-21, 99-101, 999, 1000 on <= 2 orbits (1 orbit above size 2)", "size_5_plus_V": t.pick(json!([1,2,3,4,5,11]), json!([1,2,3,5,11])),
             "crate_covers_max_sheets": 3, "crate_covers_on_sizes_up_to": t.pick(3, 4)}),
     }
 }
@@ -148,6 +148,106 @@ fn check_symbol(ctx: &mut Ctx, family: &str, s: &RS, rep: Option<&RS>, with_cove
     }
 }
 
+/// exact fraction arithmetic in i128 (for symbols with many pairwise coprime degrees, where i64 is too small)
+fn frac_add(x: (i128, i128), a: i128, b: i128) -> (i128, i128) {
+    fn g(mut a: i128, mut b: i128) -> i128 {
+        while b != 0 {
+            let t = a % b;
+            a = b;
+            b = t;
+        }
+        a.abs()
+    }
+    let num = x.0 * b + a * x.1;
+    let den = x.1 * b;
+    let d = g(num, den).max(1);
+    (num / d, den / d)
+}
+
+/// mirror polygons with pairwise coprime corner orders: a chain of 2k chambers (s0 pairs (1 2)(3 4)..., s1 pairs
+/// (2 3)(4 5)... with both ends fixed, s2 the identity), one face, k + 1 corners.  The common denominator of the
+/// curvature is the product of the corner orders: beyond i64 from about ten corners on, while the value itself
+/// still fits.  Checked: curvature against the definition in i128 arithmetic whenever the exact value is
+/// representable, sign predicates, and the curvature of the dual and of the reversed numbering.
+fn coprime_polygons(ctx: &mut Ctx) {
+    let pool: Vec<usize> = vec![41, 43, 47, 53, 59, 61, 67, 71, 73, 79, 81, 83, 89, 97];
+    for k in 3..=ctx.tier.pick(10usize, 12usize) {
+        for start in 0..pool.len() {
+            if !ctx.take() {
+                continue;
+            }
+            let n = 2 * k;
+            let mut s0: Vec<usize> = (0..n).collect();
+            let mut s1: Vec<usize> = (0..n).collect();
+            for j in 0..k {
+                s0[2 * j] = 2 * j + 1;
+                s0[2 * j + 1] = 2 * j;
+            }
+            for j in 0..k - 1 {
+                s1[2 * j + 1] = 2 * j + 2;
+                s1[2 * j + 2] = 2 * j + 1;
+            }
+            let ops = vec![s0, s1.clone(), (0..n).collect::<Vec<usize>>()];
+            // corners: chamber 0 alone, pairs (2j+1, 2j+2), chamber n-1 alone
+            let mut v12 = vec![0usize; n];
+            let mut c = 0;
+            let val = |c: usize| pool[(start + c) % pool.len()];
+            v12[0] = val(c);
+            c += 1;
+            for j in 0..k - 1 {
+                v12[2 * j + 1] = val(c);
+                v12[2 * j + 2] = val(c);
+                c += 1;
+            }
+            v12[n - 1] = val(c);
+            let s = RS { n, ops, v: vec![vec![1; n], v12] };
+            if valid_symbol(&s).is_err() {
+                ctx.add("coprime_polygons_rejected_by_reference_model", 1);
+                continue;
+            }
+            let case = json!({"family": "coprime-polygon", "sym": rs_to_json(&s)});
+            ctx.announce(&case);
+            ctx.count(true);
+            ctx.add("coprime_polygons", 1);
+            // definition: sum over chambers of 1/m01 + 1/m12 - 1/2
+            let mut kdef = (0i128, 1i128);
+            for d in 0..n {
+                kdef = frac_add(kdef, 1, s.m_adj(0, d) as i128);
+                kdef = frac_add(kdef, 1, s.m_adj(1, d) as i128);
+                kdef = frac_add(kdef, -1, 2);
+            }
+            let fits = kdef.0.abs() <= i64::MAX as i128 && kdef.1 <= i64::MAX as i128;
+            if !fits {
+                ctx.add("coprime_polygons_value_beyond_i64", 1);
+                continue;
+            }
+            let rev: Vec<usize> = (0..n).rev().collect();
+            for (what, t) in [("as given", s.clone()), ("reversed numbering", s.relabel(&rev)), ("dual", s.dual())] {
+                ctx.ops(1);
+                match ctx.guard(|| {
+                    let cs = to_partial_dsym(&t);
+                    (frac(curvature(&cs)), is_euclidean(&cs), is_hyperbolic(&cs), is_spherical(&cs))
+                }) {
+                    Ok((kk, e, h, sp)) => {
+                        if (kk.0 as i128, kk.1 as i128) != kdef {
+                            ctx.violation("curvature-definition", case.clone(), format!("{}: curvature = {}/{}, the definition gives {}/{}", what, kk.0, kk.1, kdef.0, kdef.1), n as u64);
+                            return;
+                        }
+                        if e != (kdef.0 == 0) || h != (kdef.0 < 0) || (sp && kdef.0 <= 0) {
+                            ctx.violation("predicates", case.clone(), format!("{}: (euclidean, hyperbolic, spherical) = ({}, {}, {}) for curvature {}/{}", what, e, h, sp, kdef.0, kdef.1), n as u64);
+                            return;
+                        }
+                    }
+                    Err(m) => {
+                        ctx.violation("panic", case.clone(), format!("{}: {}", what, m), n as u64);
+                        return;
+                    }
+                }
+            }
+        }
+    }
+}
+
 fn run(ctx: &mut Ctx) {
     let tier = ctx.tier;
     let vals = [1usize, 2, 3, 4, 5, 11];
@@ -163,6 +263,10 @@ fn run(ctx: &mut Ctx) {
                 });
             }
         });
+    }
+    coprime_polygons(ctx);
+    if ctx.nviolations() > 0 {
+        return;
     }
     // degree boundaries: the orbifold symbol writes degrees >= 10 in parentheses, so every value around the
     // one-digit / two-digit / three-digit boundaries is placed on one or two orbits of every small set
